@@ -25,6 +25,7 @@ type Eval struct {
 	pkg       *types.Package
 	errs      []string
 	assuming  bool      // the formula will be assumed: well-typedness premises are not added under quantifiers
+	negPol    bool      // evaluating in negative position (antecedent of ==>, under !)
 	canEmit   bool      // may add assertions to the script (function context)
 	pending   *[]string // well-typedness facts about memory reads in the expression being evaluated
 }
@@ -349,7 +350,10 @@ func (ev *Eval) eval(e Expr) Val {
 	case *EUn:
 		switch x.Op {
 		case "!":
-			return Val{Term: not(ev.term(ev.eval(x.X))), T: types.Typ[types.Bool]}
+			ev.negPol = !ev.negPol
+			t := ev.term(ev.eval(x.X))
+			ev.negPol = !ev.negPol
+			return Val{Term: not(t), T: types.Typ[types.Bool]}
 		case "-":
 			v := ev.eval(x.X)
 			if v.K != nil {
@@ -439,7 +443,10 @@ func (ev *Eval) eval(e Expr) Val {
 				*ev.pending = append(*ev.pending, f)
 			}
 		}
-		if ev.assuming {
+		// well-typedness facts of reads under the quantifier help prove a quantified goal; where the formula is
+		// in effect assumed (assumed outright, or in negative position of a goal) they are left out: they are
+		// true of every real memory, and as premises they would only weaken the assumption
+		if ev.assuming != ev.negPol {
 			prem = nil
 		}
 		prem = append(typed, prem...)
@@ -691,7 +698,11 @@ func (ev *Eval) binary(x *EBin) Val {
 	case "||":
 		return Val{Term: or(ev.term(ev.eval(x.L)), ev.term(ev.eval(x.R))), T: boolT}
 	case "==>":
-		return Val{Term: implies(ev.term(ev.eval(x.L)), ev.term(ev.eval(x.R))), T: boolT}
+		// the antecedent is in negative position: a quantifier there is in effect assumed (see EQuant)
+		ev.negPol = !ev.negPol
+		l := ev.term(ev.eval(x.L))
+		ev.negPol = !ev.negPol
+		return Val{Term: implies(l, ev.term(ev.eval(x.R))), T: boolT}
 	case "<==>":
 		return Val{Term: "(= " + ev.term(ev.eval(x.L)) + " " + ev.term(ev.eval(x.R)) + ")", T: boolT}
 	}
@@ -914,6 +925,14 @@ func (ev *Eval) callExpr(x *ECall) Val {
 		ks, vs := s.sortOf(mt.Key()), s.sortOf(mt.Elem())
 		k := ev.term(ev.coerce(ev.eval(x.Args[1]), mt.Key()))
 		return Val{Term: "(and (not " + s.mapPart(ks, vs, "mnil", cur) + ") (select " + s.mapPart(ks, vs, "mhas", cur) + " " + k + "))", T: boolT}
+	case "fnid":
+		// identity of a function value produced under opt returns_contract
+		if len(x.Args) == 1 {
+			if cf, ok := ev.eval(x.Args[0]).Fn.(contractFn); ok {
+				return Val{Term: cf.id}
+			}
+		}
+		ev.fail("fnid: not a function value with a contract")
 	case "isptrto":
 		// isptrto(x, T): the dynamic type of interface value x is *T (and x is not nil)
 		if len(x.Args) == 2 {
